@@ -219,7 +219,7 @@ class C11(Check):
         "modelled: every class of job_shop_lib/dispatching/feature_observers (constructor = initialize_features, update, "
         "reset, create_or_get_observer dependencies, CompositeFeatureObserver, feature_observer_factory) and "
         "UnscheduledOperationsObserver (coq/model/FeatureObservers.v); EarliestStartTimeObserver AFTER the repair "
-        ".scratch/fix-C11-earliest-start.diff",
+        "(/repo commits b64948b, f806e65)",
         "numpy: float32/float64 arithmetic is exact on the integers that occur; fancy-indexed '+=' counts a repeated "
         "index once; np.concatenate / hstack / cumsum / NaN propagation as modelled (validated by sampling only)",
     ]
